@@ -10,10 +10,54 @@ report taxon must be what the rule yields for that genome's lineage and distance
 C03_check_iff: `check` accepts exactly those observations).  Numbers cross the wire as exact integers
 (value * 2^k, k common to the case); the reading "float32 d <= float64 threshold is exact" is itself
 checked against Flocq's binary32/binary64 comparison and against the code on every threshold/distance
-boundary pair (kind `cmp`)."""
+boundary pair (kind `cmp`).
+
+Coverage audit (item of the property text -> streams that drive it ON THE IMPLEMENTATION; every stream listed judges
+the property predicate (oracle `check`, op 303) unless noted; "A:" = added by the audit):
+  clauses
+    closest = a genome at the minimum .......... all cls/chain/api/qry/db streams (ties: any minimum accepted); csv (unique min)
+    predicted / primary iff predicted ........... cls, chain, api, qry items, db items  (csv: only through predicted.name)
+    primary match IS the closest match .......... genome: cls/chain; A: + distance of the primary match (api/qry/db)
+    next taxon .................................. cls, chain, csv (next.name); A: api, qry, db (+ next.rank/ncbi_id/threshold)
+    user-facing taxon ........................... cls, chain, csv (predicted.name); A: api (gambit.db.reportable_taxon), qry, db
+    monotone in the distance .................... exhaustive-chains, random-chains; A: deep-chains
+  quantifier
+    depth ....................................... <= 5 exhaustive, <= 14 random; A: deep-chains (20..200), deep-forests (40..150 taxa)
+    no threshold / non-monotone / unreportable /
+    several roots / genomes on internal nodes ... exhaustive-forests<=3, random-forests, and every A: stream (same forest generator)
+    distance == threshold ....................... boundary pools (binary32); A: in the matrix dtype (binary64 / binary16
+                                                  neighbours, qry/api), and on real Jaccard ratios (db: threshold = the binary32
+                                                  distance, its neighbours, the exact ratio rounded to binary64)
+    all distance vectors ........................ 1..8 genomes, ties; A: long-vectors / long-vectors-query (200..3000, minimum at
+                                                  0 / 999 / 1000 / 1001 / end), database-dirs>1000-genomes (real chunking, 2nd chunk)
+    every reference database .................... was: transient ORM objects only.  A: database-dirs (sqlite + HDF5 written, loaded with
+                                                  ReferenceDatabase.load_from_dir: persisted Taxon.parent, report column default,
+                                                  thresholds through the REAL column, distances from real signatures)
+    every query ................................. 1..4 rows; A: 20..60 rows, the same query twice, empty query signature (db)
+  observe at / entry points
+    get_result_item ............................. cls, chain
+    gambit.query.query(...).items[i] ............ was: only 5 CSV columns of it (csv).  A: qry (items + all 10 columns), db
+      call forms: params object / keywords / defaults, chunksize None,1,2,3,1000, report_closest 0..50, numpy.int64
+      parameters, inputs= none / str / QueryInput, genomes as list / tuple, second call on the same objects ... A: qry, db
+      one query() per signature; query_parse on FASTA files ...................................................... A: db
+    gambit.classify.classify directly (strict omitted / strict=False), distances as list / tuple / ndarray,
+      matching_taxon, GenomeMatch(genome, d).matched_taxon default, GenomeMatch.next_taxon, with the distance as
+      Python float / numpy.float64 / array scalar; thresholds held as Python int ................................ A: api
+    distance dtype / layout: binary32 C-contiguous was the only one.  A: big-endian binary32, binary64, binary16; Fortran
+      order, strided view with decoys, negative stride, read-only (api, qry).  binary64/binary16 are outside what
+      jaccarddist_matrix produces; they are judged by the same oracle (numbers are exact on the wire)
+    CSV columns predicted.* next.* closest.* .... was: predicted.name, next.name, closest.description, closest.distance.
+                                                  A: + rank, ncbi_id (None / 0 / 2^40), threshold, names with , " LF CRLF
+                                                  TAB NBSP non-ASCII, duplicate names (qry, db).  A lone CR in a name is kept out:
+                                                  known finding C11-csv-lone-cr (csv writer, not this property)
+    gambit query command ........................ was: not driven.  A: db -- default output, --no-strict -f csv, -f json
+                                                  (predicted_taxon / next_taxon keys), FASTA arguments (-c 1)
+  not covered: NaN / infinite / negative distances (ASSUMPTIONS); -f archive (C11); which signature belongs to which genome
+  (C04); labels of the rows (C08); closest_genomes list (C09); strict mode (C10)."""
 import csv
 import io
 import itertools
+import math
 import struct
 from fractions import Fraction
 
@@ -21,19 +65,30 @@ PROP = 'C03'
 RULE = ('cls: forest (parent table, optional thresholds, report flags) + genomes on arbitrary taxa + float32 '
         'distance vector -> get_result_item; chain: one lineage x several distances (each classified separately, '
         'then the monotonicity predicate across the distances); csv: query() + CSV export of several queries; '
-        'cmp: float32 distance vs float64 threshold comparison.  non-trivial: the closest genome\'s lineage has '
-        '>= 2 taxa of which at least one carries a threshold (cls/chain/csv); cmp: the pair is within 2 float32 ulps')
+        'cmp: float32 distance vs float64 threshold comparison; api: classify() / matching_taxon / GenomeMatch called '
+        'directly with every distance container (list, tuple, ndarray of 4 dtypes x 5 memory layouts) x genome container x '
+        'strict spelling x scalar type; qry: query() on a supplied matrix (dtypes, layouts, call forms, odd names, ties, '
+        '1..60 rows, up to 1200 genomes) judged on items[i] and on all predicted.*/closest.*/next.* CSV columns; db: a '
+        'database directory written by the harness (sqlite + HDF5, thresholds on/next to the real Jaccard distances), '
+        'loaded and queried through query()/query_parse() and the gambit query command (csv, --no-strict, json, FASTA).  '
+        'non-trivial: the closest genome\'s lineage has >= 2 taxa of which at least one carries a threshold '
+        '(cls/chain/csv/api/qry/db); cmp: the pair is within 2 float32 ulps')
 TRUSTED = ['harness/c03.py: construction of transient gambit.db.models objects from the parent table, derivation of '
            'lineages from the same table, exact float -> scaled-integer conversion (fractions.Fraction)',
            'NumPy: np.argmin returns an index of a minimum; float32 scalar <= Python float (modelled as exact; '
            'sampled by kind cmp against Flocq)',
-           'SQLAlchemy: in-memory relationship Taxon.parent on transient objects behaves like the persisted one']
+           'SQLAlchemy: in-memory relationship Taxon.parent on transient objects behaves like the persisted one (kind db runs '
+           'the same oracle on persisted objects loaded from a database file)',
+           'kind db: the harness\'s own Jaccard distance (|A^B| / |AuB|, one binary32 division) is the distance the property '
+           'speaks about (that the implementation computes it is C02/C04/C05); FASTA files are used only when the '
+           'implementation\'s own signature of the file equals the intended one',
+           'Python csv / json readers used to read the exported files back']
 ASSUMPTIONS = ['distances and thresholds are finite (no NaN/inf); taxon ids are unique; the taxonomy is a forest',
                'NumPy 1.x legacy promotion (float32 scalar vs Python float compared in binary64); under NumPy>=2 '
                '(NEP 50) the threshold would be rounded to float32 first and kind cmp would report it',
                'the repaired GenomeMatch.next_taxon (repo_fixes/C03.diff) is the algorithm the theorems are about; '
                'the walk as found is kept as classify_orig with C03_next_orig_refuted']
-CORRESPONDENCES = ['cls', 'chain', 'csv', 'cmp']
+CORRESPONDENCES = ['cls', 'chain', 'csv', 'cmp', 'api', 'qry', 'db']
 
 ERR = {1: 'ValueError', 2: 'IndexError', 3: 'AttributeError', 4: 'OutOfFuel'}
 
@@ -201,7 +256,10 @@ def judge(ctx, kind, case, label, taxa, genomes, dists, o, a_fixed, a_orig, a_ch
 	if a_check == 1:
 		return True
 	# describe what is wrong
-	if o['closest'] < 0 or o['closest'] >= len(dists) or o['dist'] != dists[o['closest']] or o['dist'] > min(dists):
+	if 0 <= o['closest'] < len(dists) and o['dist'] != dists[o['closest']] and dists[o['closest']] <= min(dists):
+		what = (f'{label}: closest match is genome #{o["closest"]}, reported at distance {o["dist"]!r}; the distance to that genome is '
+		        f'{dists[o["closest"]]!r}')
+	elif o['closest'] < 0 or o['closest'] >= len(dists) or o['dist'] != dists[o['closest']] or o['dist'] > min(dists):
 		what = (f'{label}: closest match is genome #{o["closest"]} at {o["dist"]!r}, the minimum distance is {min(dists)!r} '
 		        f'(first at #{dists.index(min(dists))})')
 	else:
@@ -411,7 +469,604 @@ def k_cmp(ctx, cases):
 			              f'exactly it is {exact}', impl=got, spec=exact, model=flocq)
 
 
-KINDS = {'cls': k_cls, 'chain': k_chain, 'csv': k_csv, 'cmp': k_cmp}
+# ==================================================================================================
+# audit kinds: api (direct call forms), qry (query() on a supplied matrix: items + every CSV column),
+# db (a real database directory: persisted ORM objects, real distances, Python API and command line)
+# ==================================================================================================
+DTYPES = {'f32': '<f4', 'be32': '>f4', 'f64': '<f8', 'f16': '<f2'}
+ORDERS = ('c', 'f', 'strided', 'rev', 'ro')
+
+
+def canon_taxa(taxa):
+	"""report flag None (= not given, the column default True applies) -> True"""
+	return [[p, thr, True if rep is None else bool(rep)] for p, thr, rep in taxa]
+
+
+def validate2(taxa, genomes, vectors, dt='f32'):
+	"""forest + one finite distance, exactly representable in the dtype, per reference genome"""
+	import numpy as np
+	for i, t in enumerate(taxa):
+		if not (isinstance(t, list) and len(t) == 3):
+			raise ValueError('taxon entry')
+		if not (isinstance(t[0], int) and -1 <= t[0] < i):
+			raise ValueError('parent must precede child')
+		if t[1] is not None and (not isinstance(t[1], (int, float)) or t[1] != t[1] or abs(t[1]) == float('inf')):
+			raise ValueError('threshold')
+	if not genomes:
+		raise ValueError('no genomes')
+	for g in genomes:
+		if not (isinstance(g, int) and 0 <= g < len(taxa)):
+			raise ValueError('genome taxon')
+	if dt not in DTYPES:
+		raise ValueError('dtype')
+	for v in vectors:
+		if len(v) != len(genomes):
+			raise ValueError('one distance per reference genome')
+		for d in v:
+			if not isinstance(d, (int, float)) or d != d or abs(d) == float('inf') or d < 0 \
+					or float(np.array(d, dtype=DTYPES[dt])) != d:
+				raise ValueError('distance must be a finite non-negative value of the dtype')
+
+
+def make_matrix(rows, layout):
+	"""rows -> 2-D ndarray.  layout = '<dtype>:<order>': c (C contiguous), f (Fortran order: rows are strided),
+	strided (every second column of a wider matrix whose other columns hold 0.0 decoys), rev (negative stride),
+	ro (read-only)"""
+	import numpy as np
+	dt, order = layout.split(':')
+	if order not in ORDERS:
+		raise ValueError('layout')
+	a = np.asarray(rows, dtype=np.dtype(DTYPES[dt]))
+	if a.ndim != 2:
+		raise ValueError('matrix')
+	if order == 'f':
+		a = np.asfortranarray(a)
+	elif order == 'strided':
+		w = np.zeros((a.shape[0], 2 * a.shape[1] + 1), dtype=a.dtype)
+		w[:, 1::2] = a
+		a = w[:, 1::2]
+	elif order == 'rev':
+		a = np.ascontiguousarray(a[:, ::-1])[:, ::-1]
+	elif order == 'ro':
+		a.flags.writeable = False
+	return a
+
+
+def obs_of(cr, report, gix, tid):
+	"""ClassifierResult + user-facing taxon -> (observation dict, side findings).  gix: AnnotatedGenome -> index in
+	the reference list (-1 unknown); tid: Taxon -> id.  Side findings are failures of "the primary match is the
+	closest match" beyond the genome (distance of the primary match)."""
+	t = lambda x: None if x is None else tid(x)
+	cm, pm = cr.closest_match, cr.primary_match
+	o = dict(closest=gix(cm.genome), dist=float(cm.distance), predicted=t(cr.predicted_taxon),
+	         primary=None if pm is None else gix(pm.genome), next=t(cr.next_taxon), report=t(report))
+	side = []
+	if pm is not None and float(pm.distance) != float(cm.distance):
+		side.append(f'primary match distance {float(pm.distance)!r} differs from the closest match distance {float(cm.distance)!r}')
+	return o, side
+
+
+class Plan:
+	"""collects model requests of one batch; judgements are made after the single ctx.model call"""
+
+	def __init__(self):
+		self.reqs = []
+		self.todo = []
+
+	def item(self, ci, label, taxa, genomes, dists, o, side=()):
+		"""o: observation (obs_of) or error name, for the whole distance vector"""
+		num = scaler([t[1] for t in taxa] + list(dists))
+		wg = wire_genomes(taxa, genomes, num)
+		wd = [num(d) for d in dists]
+		pos = len(self.reqs)
+		bad = not isinstance(o, str) and (not (0 <= o['closest'] < len(dists)) or o['dist'] != dists[o['closest']])
+		if isinstance(o, str) or bad:
+			wo = [0, [0, 0], [], [], [], []]   # not judged by the oracle: judge() describes the closest-match failure
+		else:
+			wo = [o['closest'], num(o['dist']), opt(o['predicted']), opt(o['primary']), opt(o['next']), opt(o['report'])]
+		self.reqs += [(301, [wg, wd]), (302, [wg, wd]), (303, [wg, wd, wo])]
+		self.todo.append(('item', ci, pos, label, taxa, genomes, list(dists), o, list(side), bad))
+
+	def row(self, ci, label, taxa, genomes, dists, got, expect):
+		"""an exported row.  got: canonical row or an error text; expect(c, m) -> canonical row for the closest
+		genome c and the rule's answer m for that genome alone.  Accepted: the row of ANY genome at the minimum"""
+		lo = min(dists)
+		cands = [j for j, d in enumerate(dists) if d == lo]
+		pos = len(self.reqs)
+		for c in cands:
+			num = scaler([t[1] for t in taxa] + [dists[c]])
+			self.reqs.append((301, [wire_genomes(taxa, [genomes[c]], num), [num(dists[c])]]))
+		self.todo.append(('row', ci, pos, label, cands, got, expect))
+
+	def run(self, ctx, kind, cases):
+		ans = ctx.model(self.reqs) if self.reqs else []
+		for e in self.todo:
+			if e[0] == 'item':
+				_, ci, pos, label, taxa, genomes, dists, o, side, bad = e
+				ok = judge(ctx, kind, cases[ci], label, taxa, genomes, dists, o, ans[pos], ans[pos + 1], 0 if bad else ans[pos + 2])
+				if ok and side and not isinstance(o, str):
+					ctx.violation(kind, cases[ci], f'{label}: ' + '; '.join(side), impl=o, spec='the primary match is the closest match')
+			else:
+				_, ci, pos, label, cands, got, expect = e
+				exp = []
+				for n, c in enumerate(cands):
+					m = model_obs(ans[pos + n])
+					if not isinstance(m, str):
+						exp.append(expect(c, m))
+				if not exp or got in exp:
+					continue
+				what = f'{label}: exported row {got!r} is not the row the rule gives for a closest genome ' \
+				       f'(genome #{cands[0]}: {exp[0]!r}' + (f'; {len(exp) - 1} more tied genome(s)' if len(exp) > 1 else '') + ')'
+				if not isinstance(got, str) and len(got) == len(exp[0]):
+					what += f'; differing fields {[i for i in range(len(got)) if got[i] != exp[0][i]]}'
+				ctx.violation(kind, cases[ci], what, impl=got, spec=exp, model=exp)
+
+
+def nontrivial_for(taxa, genomes, vectors):
+	for v in vectors:
+		if v and len(v) == len(genomes):
+			lin = lineage_ix(taxa, genomes[v.index(min(v))])
+			if len(lin) >= 2 and any(taxa[j][1] is not None for j in lin):
+				return True
+	return False
+
+
+# ---- kind api ------------------------------------------------------------------------------------
+def k_api(ctx, cases):
+	"""case: taxa, genomes, dists, cont ('list' | 'tuple' | '<dtype>:<order>'), gcont ('list' | 'tuple'),
+	strict ('omit' | 'false'), scalar ('py' | 'np64' | 'same').  gambit.classify.classify called directly
+	(+ gambit.db.reportable_taxon), then matching_taxon / GenomeMatch(genome, distance) [default matched_taxon]
+	/ GenomeMatch.next_taxon on the closest genome with the distance passed as the given scalar type."""
+	import numpy as np
+	import gambit.db
+	from gambit.classify import classify, matching_taxon, GenomeMatch
+	plan = Plan()
+	for ci, case in enumerate(cases):
+		taxa, genomes, dists = case['taxa'], case['genomes'], case['dists']
+		cont = case['cont']
+		dt = cont.split(':')[0] if ':' in cont else 'f64'
+		validate2(taxa, genomes, [dists], dt)
+		if cont not in ('list', 'tuple') and cont.split(':')[1] not in ORDERS:
+			raise ValueError('cont')
+		objs, gs = build_orm(taxa, genomes)
+		if cont == 'list':
+			arr = [float(d) for d in dists]
+		elif cont == 'tuple':
+			arr = tuple(float(d) for d in dists)
+		else:
+			arr = make_matrix([dists, [0.0] * len(dists)], cont)[0]
+		gsc = tuple(gs) if case['gcont'] == 'tuple' else list(gs)
+		tid = lambda t: t.id
+		gix = lambda g: _ix(gs, g)
+		ctx.case(case, nontrivial=nontrivial_for(taxa, genomes, [dists]))
+		try:
+			cr = classify(gsc, arr) if case['strict'] == 'omit' else classify(gsc, arr, strict=False)
+			o, side = obs_of(cr, gambit.db.reportable_taxon(cr.predicted_taxon), gix, tid)
+		except Exception as e:
+			o, side = type(e).__name__, []
+		plan.item(ci, f'classify({case["gcont"]} of genomes, {cont} distances, strict {case["strict"]})', taxa, genomes, dists, o, side)
+		if isinstance(o, str) or not (0 <= o['closest'] < len(dists)):
+			continue
+		c = o['closest']
+		d = dists[c]
+		sc = case['scalar']
+		dd = float(d) if sc == 'py' else np.float64(d) if sc == 'np64' else arr[c]
+		try:
+			gm = GenomeMatch(gs[c], dd)
+			mt = matching_taxon(gs[c].taxon, dd)
+			o2 = dict(closest=0, dist=float(gm.distance), predicted=None if mt is None else mt.id,
+			          primary=0 if mt is not None else None,
+			          next=(lambda t: None if t is None else t.id)(gm.next_taxon()),
+			          report=(lambda t: None if t is None else t.id)(gambit.db.reportable_taxon(gm.matched_taxon)))
+			side2 = [] if gm.matched_taxon is mt else ['GenomeMatch(genome, distance).matched_taxon differs from matching_taxon(genome.taxon, distance)']
+		except Exception as e:
+			o2, side2 = type(e).__name__, []
+		plan.item(ci, f'matching_taxon / GenomeMatch(genome #{c}, {type(dd).__name__} distance)', taxa, [genomes[c]], [d], o2, side2)
+	plan.run(ctx, 'api', cases)
+
+
+# ---- kind qry ------------------------------------------------------------------------------------
+CSV_COLS = ['predicted.name', 'predicted.rank', 'predicted.ncbi_id', 'predicted.threshold', 'closest.distance',
+            'closest.description', 'next.name', 'next.rank', 'next.ncbi_id', 'next.threshold']
+
+
+def csv_rows(text, dt):
+	"""CSV text -> canonical rows [[name, rank, ncbi, thr, dist, descr, name, rank, ncbi, thr], ...] (thresholds and the
+	distance as floats, the distance rounded to the matrix dtype; '' = empty cell) or an error text"""
+	import numpy as np
+	try:
+		table = list(csv.reader(io.StringIO(text, newline='')))
+		hdr = table[0]
+		col = [hdr.index(h) for h in CSV_COLS]
+		out = []
+		for r in table[1:]:
+			v = [r[c] for c in col]
+			for i in (3, 9):
+				v[i] = '' if v[i] == '' else float(v[i])
+			v[4] = float(np.array(float(v[4]), dtype=DTYPES[dt]))
+			out.append(v)
+		return out
+	except (ValueError, IndexError, OverflowError) as e:
+		return f'unreadable CSV ({type(e).__name__}: {e})'
+
+
+def csv_expect(taxa, tmeta, gdesc, dists):
+	"""-> expect(c, m) for Plan.row"""
+	def tx(t):
+		if t is None:
+			return ['', '', '', '']
+		name, rank, ncbi = tmeta[t - 1]
+		thr = taxa[t - 1][1]
+		return [name, '' if rank is None else rank, '' if ncbi is None else str(ncbi), '' if thr is None else float(thr)]
+
+	def expect(c, m):
+		return tx(m['report']) + [float(dists[c]), gdesc[c]] + tx(m['next'])
+	return expect
+
+
+def build_orm_meta(taxa, genomes, tmeta, gdesc):
+	objs, gs = build_orm(taxa, genomes)
+	for t, (name, rank, ncbi) in zip(objs, tmeta):
+		t.name, t.rank, t.ncbi_id = name, rank, ncbi
+	for g, d in zip(gs, gdesc):
+		g.genome.description = d
+	return objs, gs
+
+
+def check_meta(taxa, genomes, tmeta, gdesc):
+	if len(tmeta) != len(taxa) or len(gdesc) != len(genomes) or len(set(gdesc)) != len(gdesc):
+		raise ValueError('tmeta / gdesc')
+	for name, rank, ncbi in tmeta:
+		if not isinstance(name, str) or not name or not (rank is None or (isinstance(rank, str) and rank)) \
+				or not (ncbi is None or isinstance(ncbi, int)):
+			raise ValueError('tmeta entry')
+
+
+def k_qry(ctx, cases):
+	"""case: taxa, genomes, tmeta [[name, rank, ncbi_id]...], gdesc [descriptions, distinct], rows (distance vectors,
+	ties allowed), layout '<dtype>:<order>', call ('default' | 'params' | 'kw'), chunksize, report_closest, npint (pass
+	them as numpy.int64), inputs ('none' | 'str' | 'obj'), gcont, twice.  gambit.query.query with the distance matrix supplied by the
+	harness; judged on items[i].classifier_result / report_taxon and on every predicted.* / closest.* / next.*
+	CSV column."""
+	from types import SimpleNamespace
+	import warnings
+	import gambit.query as gq
+	from gambit.results import CSVResultsExporter
+	if not hasattr(gq, 'jaccarddist_matrix'):
+		ctx.count('stream:qry-skipped(no gambit.query.jaccarddist_matrix)', len(cases))
+		return
+	plan = Plan()
+	for ci, case in enumerate(cases):
+		taxa, genomes, rows, layout = case['taxa'], case['genomes'], case['rows'], case['layout']
+		dt = layout.split(':')[0]
+		validate2(taxa, genomes, rows, dt)
+		if not rows:
+			raise ValueError('no queries')
+		check_meta(taxa, genomes, case['tmeta'], case['gdesc'])
+		objs, gs = build_orm_meta(taxa, genomes, case['tmeta'], case['gdesc'])
+		db = SimpleNamespace(genomes=tuple(gs) if case['gcont'] == 'tuple' else gs, genomeset=None,
+		                     signatures=SimpleNamespace(meta=None), sig_indices=None)
+		mat = make_matrix(rows, layout)
+		par = dict(classify_strict=False, chunksize=case['chunksize'], report_closest=case['report_closest'])
+		if case.get('npint'):
+			import numpy as np
+			par = {k: v if v is None or isinstance(v, bool) else np.int64(v) for k, v in par.items()}
+		labels = [f'query {q}' for q in range(len(rows))]
+		kw = {}
+		if case['inputs'] == 'str':
+			kw['inputs'] = labels
+		elif case['inputs'] == 'obj':
+			kw['inputs'] = [gq.QueryInput(l) for l in labels]
+		ctx.case(case, nontrivial=nontrivial_for(taxa, genomes, rows))
+		expect = [csv_expect(taxa, case['tmeta'], case['gdesc'], r) for r in rows]
+		saved = gq.jaccarddist_matrix
+		gq.jaccarddist_matrix = lambda *a, **k: mat
+		try:
+			for rep in range(2 if case['twice'] else 1):
+				tag = f'query() [{case["call"]}, {layout}' + (', second call on the same objects]' if rep else ']')
+				try:
+					with warnings.catch_warnings():
+						warnings.simplefilter('ignore')
+						if case['call'] == 'params':
+							res = gq.query(db, [None] * len(rows), gq.QueryParams(**par), **kw)
+						elif case['call'] == 'kw':
+							res = gq.query(db, [None] * len(rows), **par, **kw)
+						else:
+							res = gq.query(db, [None] * len(rows), **kw)
+					items = list(res.items)
+					buf = io.StringIO()
+					CSVResultsExporter().export(buf, res)
+					table = csv_rows(buf.getvalue(), dt)
+				except Exception as e:
+					items, table = type(e).__name__, None
+				for q, r in enumerate(rows):
+					if isinstance(items, str) or q >= len(items):
+						o, side = (items if isinstance(items, str) else 'MissingItem'), []
+					else:
+						try:
+							o, side = obs_of(items[q].classifier_result, items[q].report_taxon, lambda g: _ix(gs, g), lambda t: t.id)
+						except Exception as e:
+							o, side = type(e).__name__, []
+					plan.item(ci, f'{tag} item {q}', taxa, genomes, r, o, side)
+					if table is not None:
+						got = table if isinstance(table, str) else table[q] if q < len(table) and len(table) == len(rows) else \
+							f'{len(table)} CSV rows for {len(rows)} queries'
+						plan.row(ci, f'{tag} CSV row {q}', taxa, genomes, r, got, expect[q])
+		finally:
+			gq.jaccarddist_matrix = saved
+	plan.run(ctx, 'qry', cases)
+
+
+# ---- kind db -------------------------------------------------------------------------------------
+NUC = 'ACGT'
+
+
+def kmer_str(ix, k):
+	return ''.join(NUC[(ix >> (2 * (k - 1 - i))) & 3] for i in range(k))
+
+
+def cg_kmers(k):
+	"""indices of the k-mers over {C, G} (most significant nucleotide first, A C G T = 0 1 2 3)"""
+	out = []
+	for bits in itertools.product((1, 2), repeat=k):
+		v = 0
+		for b in bits:
+			v = v * 4 + b
+		out.append(v)
+	return out
+
+
+def jacc32(a, b):
+	"""Jaccard distance |A^B| / |AuB| rounded once to binary32 (two empty sets: 0) and the exact ratio rounded to
+	binary64"""
+	import numpy as np
+	a, b = set(a), set(b)
+	u = len(a | b)
+	if u == 0:
+		return 0.0, 0.0
+	n = u - len(a & b)
+	return float(np.float32(n) / np.float32(u)), n / u
+
+
+_TEMPLATE = [None]
+
+
+def _empty_gdb():
+	"""bytes of an empty database file with gambit's schema (created once per run)"""
+	import os
+	from sqlalchemy import create_engine
+	from gambit.db import models as M
+	from vf import impl as vimpl
+	if _TEMPLATE[0] is None:
+		d = vimpl.scratch_dir('gambit-verif-c03t-')
+		eng = create_engine('sqlite:///' + os.path.join(d, 't.gdb'))
+		M.Base.metadata.create_all(eng)
+		eng.dispose()
+		_TEMPLATE[0] = open(os.path.join(d, 't.gdb'), 'rb').read()
+	return _TEMPLATE[0]
+
+
+def build_db_dir(case, d):
+	"""<d>/db.gdb + <d>/db.gs (+ <d>/q/q.gs, <d>/q/q<i>.fasta).  -> query SignatureList"""
+	import os
+	import numpy as np
+	from sqlalchemy import create_engine
+	from sqlalchemy.orm import Session
+	from gambit.db import models as M
+	from gambit.kmers import KmerSpec
+	from gambit.sigs import SignatureList, SignaturesMeta, AnnotatedSignatures, dump_signatures
+	with open(os.path.join(d, 'db.gdb'), 'wb') as f:
+		f.write(_empty_gdb())
+	eng = create_engine('sqlite:///' + os.path.join(d, 'db.gdb'))
+	s = Session(eng)
+	gset = M.ReferenceGenomeSet(key='verif/c03', version='1.0', name='c03')
+	s.add(gset)
+	tobjs = []
+	for i, ((p, thr, rep), (name, rank, ncbi)) in enumerate(zip(case['taxa'], case['tmeta'])):
+		kw = {} if rep is None else dict(report=bool(rep))
+		tobjs.append(M.Taxon(key=f't{i}', name=name, rank=rank, ncbi_id=ncbi, genome_set=gset, distance_threshold=thr,
+		                     parent=tobjs[p] if p >= 0 else None, **kw))
+	s.add_all(tobjs)
+	for j, (sig, t) in enumerate(case['refs']):
+		s.add(M.AnnotatedGenome(genome=M.Genome(key=f'g{j}', description=case['gdesc'][j], refseq_acc=f'ACC{j}'),
+		                        genome_set=gset, taxon=tobjs[t]))
+	s.commit()
+	s.close()
+	eng.dispose()
+	k = case['k']
+	ks = KmerSpec(k, 'AT')
+	mk = lambda sets: SignatureList([np.array(sorted(set(x)), dtype=ks.index_dtype) for x in sets], ks)
+	dump_signatures(os.path.join(d, 'db.gs'), AnnotatedSignatures(mk([r[0] for r in case['refs']]), [f'ACC{j}' for j in range(len(case['refs']))],
+	                                                              SignaturesMeta(id_attr='refseq_acc')), 'hdf5')
+	qd = os.path.join(d, 'q')
+	os.makedirs(qd)
+	qsigs = mk(case['queries'])
+	dump_signatures(os.path.join(qd, 'q.gs'), AnnotatedSignatures(qsigs, [f'q{i}' for i in range(len(case['queries']))], SignaturesMeta()), 'hdf5')
+	return qsigs
+
+
+def write_fasta(case, d):
+	"""one FASTA file per query: one record 'AT' + k-mer per k-mer of the signature (k-mers over {C, G} only, so the
+	record holds no other prefix match on either strand).  -> paths, or None when a signature is not expressible or
+	the implementation's own signature of a file differs from the intended one (then the fasta route is skipped:
+	signature calculation is not this property's business)"""
+	import os
+	import numpy as np
+	from gambit.kmers import KmerSpec
+	from gambit.seq import SequenceFile
+	from gambit.sigs.calc import calc_file_signature
+	k = case['k']
+	ok = set(cg_kmers(k))
+	paths = []
+	for i, q in enumerate(case['queries']):
+		if not set(q) <= ok:
+			return None
+		p = os.path.join(d, 'q', f'q{i}.fasta')
+		with open(p, 'w') as f:
+			for n, ix in enumerate(sorted(set(q))):
+				f.write(f'>r{n}\nAT{kmer_str(ix, k)}\n')
+			if not q:
+				f.write('>r0\nCCGGCCGG\n')
+		try:
+			sig = calc_file_signature(KmerSpec(k, 'AT'), SequenceFile(p, 'fasta'))
+			if [int(x) for x in sig] != sorted(set(q)):
+				return None
+		except Exception:
+			return None
+		paths.append(p)
+	return paths
+
+
+def check_db_case(case):
+	k = case['k']
+	if not (isinstance(k, int) and 5 <= k <= 8):
+		raise ValueError('k')
+	if not case['refs'] or not case['queries']:
+		raise ValueError('empty')
+	for sig in [r[0] for r in case['refs']] + list(case['queries']):
+		if any(not (isinstance(v, int) and 0 <= v < 4 ** k) for v in sig):
+			raise ValueError('k-mer index')
+	if any(not r[0] for r in case['refs']):
+		raise ValueError('empty reference signature')
+	genomes = [r[1] for r in case['refs']]
+	for t in case['taxa']:
+		if not (isinstance(t, list) and len(t) == 3 and t[2] in (None, True, False)):
+			raise ValueError('taxon entry')
+	if any(a[0] not in ('default', 'params', 'kw', 'single', 'parse') for a in case['api']):
+		raise ValueError('api call form')
+	return genomes
+
+
+def k_db(ctx, cases):
+	"""case: k, taxa [[parent, threshold, report | None = column default]...], tmeta, gdesc, refs [[k-mer indices, taxon]...],
+	queries [k-mer index lists], api [[call, chunksize, report_closest]...] with call default | params | kw | single (one
+	query() per signature) | parse (query_parse on FASTA files), cli [mode...] with modes csv, csv-nostrict, json, fasta.  A database directory is written (sqlite + HDF5), loaded with ReferenceDatabase.load_from_dir and
+	queried through gambit.query.query and the gambit query command; distances are the harness's own."""
+	import json
+	import os
+	import shutil
+	import warnings
+	import gambit.cli
+	from click.testing import CliRunner
+	from vf import impl as vimpl
+	from gambit.db import ReferenceDatabase
+	from gambit.query import query, query_parse, QueryParams
+	from gambit.seq import SequenceFile
+	try:
+		from gambit._cython.threads import omp_set_num_threads
+		omp_set_num_threads(1)
+	except Exception:
+		pass
+	plan = Plan()
+	base = vimpl.scratch_dir('gambit-verif-c03-')
+	for ci, case in enumerate(cases):
+		genomes = check_db_case(case)
+		D = [[jacc32(q, r[0])[0] for r in case['refs']] for q in case['queries']]
+		validate2(case['taxa'], genomes, D, 'f32')
+		check_meta(case['taxa'], genomes, case['tmeta'], case['gdesc'])
+		taxa = canon_taxa(case['taxa'])
+		ctx.case(case, nontrivial=nontrivial_for(taxa, genomes, D))
+		expect = [csv_expect(taxa, case['tmeta'], case['gdesc'], r) for r in D]
+		d = os.path.join(base, f'c{ci}')
+		os.makedirs(d)
+		db = None
+		try:
+			qsigs = build_db_dir(case, d)
+			db = ReferenceDatabase.load_from_dir(d)
+			keys = [g.genome.key for g in db.genomes]
+			if keys != [f'g{j}' for j in range(len(genomes))]:
+				ctx.broke('correspondence db (reference order)', f'db.genomes order {keys[:10]}')
+				continue
+			gpos = {id(g): j for j, g in enumerate(db.genomes)}
+			gix = lambda g: gpos.get(id(g), -1)
+			tid = lambda t: int(t.key[1:]) + 1
+			want_fasta = 'fasta' in case['cli'] or any(a[0] == 'parse' for a in case['api'])
+			fasta = write_fasta(case, d) if want_fasta else None
+			if want_fasta and fasta is None:
+				ctx.count('db:fasta-route-skipped')
+			for call, cs, rc in case['api']:
+				if call == 'parse' and fasta is None:
+					continue
+				tag = f'query(loaded database) [{call}, chunksize={cs}, report_closest={rc}]'
+				try:
+					with warnings.catch_warnings():
+						warnings.simplefilter('ignore')
+						if call == 'default':
+							items = query(db, qsigs).items
+						elif call == 'params':
+							items = query(db, qsigs, QueryParams(chunksize=cs, report_closest=rc)).items
+						elif call == 'kw':
+							items = query(db, qsigs, classify_strict=False, chunksize=cs, report_closest=rc).items
+						elif call == 'parse':
+							items = query_parse(db, [SequenceFile(f, 'fasta') for f in fasta], QueryParams(chunksize=cs, report_closest=rc),
+							                    file_labels=[f'file {q}' for q in range(len(D))], parse_kw=dict(concurrency=None)).items
+						else:
+							items = [query(db, [qsigs[q]], QueryParams(chunksize=cs, report_closest=rc)).items[0] for q in range(len(D))]
+				except Exception as e:
+					items = type(e).__name__
+				for q, r in enumerate(D):
+					if isinstance(items, str) or q >= len(items):
+						o, side = (items if isinstance(items, str) else 'MissingItem'), []
+					else:
+						try:
+							o, side = obs_of(items[q].classifier_result, items[q].report_taxon, gix, tid)
+						except Exception as e:
+							o, side = type(e).__name__, []
+					plan.item(ci, f'{tag} item {q}', taxa, genomes, r, o, side)
+			for mode in case['cli']:
+				out = os.path.join(d, f'out-{mode}')
+				args = ['-d', d, 'query', '-o', out]
+				if mode == 'csv':
+					args += ['-s', os.path.join(d, 'q', 'q.gs')]
+				elif mode == 'csv-nostrict':
+					args += ['--no-strict', '-f', 'csv', '-s', os.path.join(d, 'q', 'q.gs')]
+				elif mode == 'json':
+					args += ['-f', 'json', '-s', os.path.join(d, 'q', 'q.gs')]
+				elif mode == 'fasta':
+					if fasta is None:
+						continue
+					args += ['-c', '1'] + fasta
+				else:
+					raise ValueError('cli mode')
+				tag = f'gambit query [{mode}]'
+				r = CliRunner().invoke(gambit.cli.cli, args)
+				text = None
+				if r.exit_code == 0 and os.path.exists(out):
+					with open(out, newline='') as f:
+						text = f.read()
+				if mode == 'json':
+					try:
+						its = json.loads(text)['items']
+						table = [[None if it['predicted_taxon'] is None else it['predicted_taxon']['key'],
+						          None if it['next_taxon'] is None else it['next_taxon']['key']] for it in its]
+					except Exception as e:
+						table = f'exit code {r.exit_code}, unreadable JSON ({type(e).__name__})'
+					ex = [(lambda c, m: [None if m['report'] is None else f't{m["report"] - 1}',
+					                     None if m['next'] is None else f't{m["next"] - 1}'])] * len(D)
+				else:
+					table = f'exit code {r.exit_code}: {str(r.exception)[:200]}' if text is None else csv_rows(text, 'f32')
+					ex = expect
+				for q, row in enumerate(D):
+					got = table if isinstance(table, str) else table[q] if len(table) == len(D) else f'{len(table)} rows for {len(D)} queries'
+					plan.row(ci, f'{tag} row {q}', taxa, genomes, row, got, ex[q])
+		finally:
+			if db is not None:
+				try:
+					db.session.close()
+					db.session.get_bind().dispose()
+				except Exception:
+					pass
+				try:
+					db.signatures.close()
+				except Exception:
+					pass
+			shutil.rmtree(d, ignore_errors=True)
+	plan.run(ctx, 'db', cases)
+	shutil.rmtree(base, ignore_errors=True)
+
+
+
+KINDS = {'cls': k_cls, 'chain': k_chain, 'csv': k_csv, 'cmp': k_cmp, 'api': k_api, 'qry': k_qry, 'db': k_db}
 BATCH = 1500
 
 
@@ -470,6 +1125,204 @@ def random_dists(rng, taxa, m):
 		i, j = rng.sample(range(m), 2)
 		base[j] = base[i] if rng.random() < 0.5 else min(base)
 	return [d if d >= 0 else 0.0 for d in base]
+
+
+# ---- generators of the audit streams ---------------------------------------------------------------
+ODD = ['a,b', 'say "x"', 'line\nbreak', 'cr\r\nlf', 'tab\there', ' lead', 'trail ', 'café ∂ \U0001F600', "o'q", 'NULL',
+       'None', '0', '-', 'x;y', '=1+1', '[Clostridium] x', 'a\\b', '""', ',', 'nan', '\xa0']
+RANKS = [None, None, 'species', 'genus', 'sub,species', 'no rank', '0']
+
+
+def odd_text(rng, i, unique):
+	if rng.random() < 0.45:
+		return f'taxon {i}'
+	base = rng.choice(ODD)
+	return f'{base} {i}' if unique or rng.random() < 0.7 else base
+
+
+def random_meta(rng, n, m):
+	"""names (not necessarily distinct), ranks, NCBI ids of n taxa; distinct descriptions of m genomes"""
+	tmeta = [[odd_text(rng, i, False), rng.choice(RANKS), rng.choice([None, 0, i + 1, 562, 2 ** 40 + i])] for i in range(n)]
+	gdesc = [odd_text(rng, j, True) + f' #{j}' for j in range(m)]
+	return tmeta, gdesc
+
+
+def dists_for(rng, taxa, m, dt):
+	"""distance vector whose values are exactly representable in the dtype, on / next to the thresholds IN THAT DTYPE"""
+	import numpy as np
+	base = random_dists(rng, taxa, m)
+	if dt in ('f32', 'be32'):
+		return base
+	thrs = [t[1] for t in taxa if t[1] is not None and 0 <= t[1] < 60000]
+	out = []
+	for d in base:
+		if thrs and rng.random() < 0.5:
+			t = rng.choice(thrs)
+			if dt == 'f64':
+				d = rng.choice([t, math.nextafter(t, -1.0), math.nextafter(t, 4.0)])
+			else:
+				h = np.float16(t)
+				d = float(rng.choice([h, np.nextafter(h, np.float16(-1)), np.nextafter(h, np.float16(4))]))
+		elif dt == 'f16':
+			d = float(np.float16(d))
+		out.append(d if d >= 0 and d == d else 0.0)
+	if m >= 2 and rng.random() < 0.3:
+		i, j = rng.sample(range(m), 2)
+		out[j] = min(out) if rng.random() < 0.6 else out[i]
+	return out
+
+
+def gen_api(rng, cont, gcont, strict, scalar, n_max=10):
+	n = rng.randint(1, n_max)
+	taxa = random_forest(rng, n, rng.choice([0.3, 0.7, 0.95]))
+	m = rng.randint(1, 7)
+	dt = cont.split(':')[0] if ':' in cont else 'f64'
+	dists = dists_for(rng, taxa, m, dt)
+	for t in taxa:
+		if t[1] in (0.0, 1.0) and rng.random() < 0.5:
+			t[1] = int(t[1])          # threshold held as a Python int
+	return dict(taxa=taxa, genomes=[rng.randrange(n) for _ in range(m)], dists=dists,
+	            cont=cont, gcont=gcont, strict=strict, scalar=scalar)
+
+
+def gen_qry(rng, m=None, n=None):
+	n = n or rng.randint(1, 10)
+	taxa = random_forest(rng, n, rng.choice([0.3, 0.7, 0.95]))
+	m = m or rng.randint(1, 7)
+	dt = rng.choice(['f32', 'f32', 'be32', 'f64', 'f16'])
+	tmeta, gdesc = random_meta(rng, n, m)
+	rows = [dists_for(rng, taxa, m, dt) for _ in range(rng.randint(1, 4) if m > 100 or rng.random() < 0.93 else rng.randint(20, 60))]
+	if rng.random() < 0.2:
+		rows.insert(rng.randrange(len(rows) + 1), list(rng.choice(rows)))     # the same query twice
+	return dict(taxa=taxa, genomes=[rng.randrange(n) for _ in range(m)], tmeta=tmeta, gdesc=gdesc,
+	            rows=rows, layout=f'{dt}:{rng.choice(ORDERS)}',
+	            call=rng.choice(['default', 'params', 'kw']), chunksize=rng.choice([None, 1, 2, 1000]),
+	            report_closest=rng.choice([0, 1, 2, 10, 50]), npint=rng.random() < 0.3, inputs=rng.choice(['none', 'str', 'obj']),
+	            gcont=rng.choice(['list', 'tuple']), twice=rng.random() < 0.3)
+
+
+def gen_big(rng, m):
+	"""forest + m genomes + one distance vector whose minimum sits at a chunk boundary / the ends"""
+	n = rng.randint(2, 12)
+	taxa = random_forest(rng, n, 0.7)
+	genomes = [rng.randrange(n) for _ in range(m)]
+	pool = boundary_dists([t[1] for t in taxa if t[1] is not None and 0 <= t[1] < 1]) or [f32(0.25)]
+	lo = rng.choice(pool)
+	dists = [f32(lo + (1 - lo) * (0.05 + 0.95 * rng.random())) for _ in range(m)]
+	dists = [d if d > lo else f32_step(lo, 3) for d in dists]
+	pos = rng.choice([0, m - 1, 999, 1000, 1001, rng.randrange(m), rng.randrange(m)]) % m
+	dists[pos] = lo
+	if rng.random() < 0.3:
+		dists[rng.randrange(m)] = lo
+	return taxa, genomes, dists
+
+
+def gen_db(rng, big=False):
+	k = rng.choice([5, 6, 7])
+	cg = cg_kmers(k)
+	U = rng.sample(cg, rng.randint(4, min(len(cg), 28)))
+	queries = [[] if rng.random() < 0.06 else sorted(rng.sample(U, rng.randint(1, len(U)))) for _ in range(rng.randint(1, 4))]
+	if rng.random() < 0.2:
+		queries.append(list(rng.choice(queries)))           # the same query twice
+	m = rng.randint(1001, 1080) if big else rng.randint(1, 8)
+	sigs = []
+	for j in range(m):
+		q = rng.choice(queries)
+		rest = [x for x in U if x not in q]
+		r = rng.random()
+		if r < 0.12:
+			sig = list(q)                                   # identical to a query: distance 0
+		elif r < 0.22 and sigs:
+			sig = list(rng.choice(sigs))                    # identical to another reference: ties
+		elif r < 0.3:
+			sig = rng.sample(rest, rng.randint(0, len(rest)))   # disjoint: distance 1
+		else:
+			sig = (rng.sample(q, rng.randint(0, len(q))) if q else []) + rng.sample(rest, rng.randint(0, len(rest)))
+		sigs.append(sorted(set(sig)) or [rng.choice(U)])
+	if big:
+		# the unique minimum of query 0 lies in the second chunk of 1000 references
+		q0 = queries[0] = queries[0] or [U[0]]
+		alt = sorted(set(q0) ^ {U[-1]}) or [U[1]]
+		sigs = [alt if x == sorted(q0) else x for x in sigs]
+		sigs[rng.choice([1000, m - 1, rng.randrange(1000, m)])] = sorted(q0)
+	n = rng.randint(1, 10)
+	taxa = random_forest(rng, n, rng.choice([0.3, 0.7, 0.95]))
+	pairs = [jacc32(q, r) for q in queries for r in sigs[-40:]]
+	for t in taxa:
+		if t[1] is not None and rng.random() < 0.75:
+			d32, d64 = rng.choice(pairs)
+			t[1] = rng.choice([d32, d32, d64, d64, f32_step(d32, -1) if d32 > 0 else d32, f32_step(d32, 1)])
+		if t[2] and rng.random() < 0.5:
+			t[2] = None
+	tmeta, gdesc = random_meta(rng, n, m)
+	api = [['default', None, None]]
+	if not big:
+		api.append([rng.choice(['params', 'kw', 'single', 'parse']), rng.choice([None, 1, 2, 3, 1000]), rng.choice([0, 1, 10])])
+	cli = ['csv'] + [x for x in ('csv-nostrict', 'json') if rng.random() < 0.5] + (['fasta'] if rng.random() < 0.2 else [])
+	return dict(k=k, taxa=taxa, tmeta=tmeta, gdesc=gdesc, refs=[[s_, rng.randrange(n)] for s_ in sigs], queries=queries, api=api, cli=cli)
+
+
+def audit_streams(ctx):
+	rng = ctx.rng
+	# A1. direct call forms: every (distance container x genome container x strict spelling x scalar type)
+	conts = ['list', 'tuple'] + [f'{dt}:{o}' for dt in DTYPES for o in ORDERS]
+	n_a = 0
+	for _ in range(ctx.pick(4, 20)):
+		for cont in conts:
+			for gcont in ('list', 'tuple'):
+				for strict in ('omit', 'false'):
+					for scalar in ('py', 'np64', 'same'):
+						yield 'api', gen_api(rng, cont, gcont, strict, scalar)
+						n_a += 1
+	ctx.count('stream:api-call-forms', n_a)
+
+	# A2. query() on a supplied matrix: items + all CSV columns, dtypes / memory layouts / call forms / odd names / ties
+	n_q = ctx.pick(1200, 10000)
+	for _ in range(n_q):
+		yield 'qry', gen_qry(rng)
+	ctx.count('stream:query-items+csv-columns', n_q)
+
+	# A3. deep taxonomies: chains of depth 20..200 (monotonicity included) and forests of 40..150 taxa
+	n_d = ctx.pick(60, 600)
+	for _ in range(n_d):
+		depth = rng.randint(20, 200)
+		taxa = random_forest(rng, depth, 1.0)
+		for t in taxa:
+			if rng.random() < 0.5:
+				t[1] = None
+		yield 'chain', dict(lineage=[[t[1], t[2]] for t in reversed(taxa)], dists=sorted(set(random_dists(rng, taxa, rng.randint(3, 8)))))
+	ctx.count('stream:deep-chains', n_d)
+	n_df = ctx.pick(150, 1500)
+	for _ in range(n_df):
+		n = rng.randint(40, 150)
+		taxa = random_forest(rng, n, rng.choice([0.9, 0.97, 0.99]))
+		m = rng.randint(1, 6)
+		yield 'cls', dict(taxa=taxa, genomes=[rng.randrange(n) for _ in range(m)], dists=random_dists(rng, taxa, m))
+	ctx.count('stream:deep-forests', n_df)
+
+	# A4. long distance vectors (200 .. 3000 reference genomes; minimum at 0 / 999 / 1000 / 1001 / the end)
+	n_b = ctx.pick(12, 60)
+	for i in range(n_b):
+		taxa, genomes, dists = gen_big(rng, rng.choice([200, 1000, 1001, 1500, 3000]))
+		yield 'cls', dict(taxa=taxa, genomes=genomes, dists=dists)
+	ctx.count('stream:long-vectors', n_b)
+	n_bq = ctx.pick(2, 12)
+	for i in range(n_bq):
+		c = gen_qry(rng, m=rng.choice([1001, 1200]))
+		c['layout'] = 'f32:' + c['layout'].split(':')[1]
+		c['rows'] = [gen_big(rng, len(c['genomes']))[2] for _ in c['rows'][:2]]
+		yield 'qry', c
+	ctx.count('stream:long-vectors-query', n_bq)
+
+	# A5. real database directories (persisted objects, real signatures, Python API + command line)
+	n_db = ctx.pick(75, 600)
+	for _ in range(n_db):
+		yield 'db', gen_db(rng)
+	ctx.count('stream:database-dirs', n_db)
+	n_bd = ctx.pick(1, 4)
+	for _ in range(n_bd):
+		yield 'db', gen_db(rng, big=True)
+	ctx.count('stream:database-dirs>1000-genomes', n_bd)
 
 
 def generate(ctx):
@@ -558,6 +1411,9 @@ def generate(ctx):
 				yield 'cmp', dict(d_bits=b, t_bits=f64_bits(t))
 				n_p += 1
 	ctx.count('stream:cmp-boundaries', n_p)
+
+	# 6b. audit streams (see the coverage table in the module docstring)
+	yield from audit_streams(ctx)
 
 	# 7. malformed: no distances, fewer genomes than distances, genome without taxon
 	mal = [dict(taxa=[[-1, 0.5, True]], genomes=[0], dists=[]),
